@@ -15,7 +15,7 @@ import (
 func init() {
 	Register(&Spec{
 		ID:          "C07",
-		Explanation: "Decides ownership and layering conditions of RPC reference counting: (R1) the wire reference counts and table slots have exactly the writers the design names (expent.wireRefs: sendCap/releaseExport; impent.*: addImport; exports[i] = nil: releaseExport; whole tables: NewConn/shutdown); (R2) a table entry is tested non-nil before it is used; (R3) the Release message carries the wireRefs of the entry looked up in the same critical section, and the entry is deleted only after the generation test; (R4) every client obtained from AddRef() in package rpc is released on all paths, stored, returned or handed to a callee that takes ownership; (R5) shutdown releases the bootstrap client, every export, every answer's result caps, lifts every embargo and clears every table; (R6) releaseResultCaps is recorded only when the Finish message says so and exports are released by destroy only under that flag. Does NOT decide the numeric balance of counts over histories nor GC-leak reports.",
+		Explanation: "Decides ownership and layering conditions of RPC reference counting: (R1) the wire reference counts and table slots have exactly the writers the design names (expent.wireRefs: sendCap/releaseExport; impent.*: addImport; exports[i] = nil: releaseExport; whole tables: NewConn/shutdown); (R2) a table entry is tested non-nil before it is used; (R3) the Release message carries the wireRefs of the entry looked up in the same critical section, and the entry is deleted only after the generation test; (R4) every client obtained from AddRef() in package rpc is released on all paths, stored, returned or handed to a callee that takes ownership; (R5) shutdown releases the bootstrap client, every export, every answer's result caps, lifts every embargo and clears every table; (R6) releaseResultCaps is recorded only when the Finish message says so and exports are released by destroy only under that flag; (R9) the release function returned with a question's answer releases that same question (its Return message holds the references to the imports in the results). Does NOT decide the numeric balance of counts over histories nor GC-leak reports.",
 		Run:         runC07,
 	})
 }
@@ -34,7 +34,9 @@ func runC07(ctx *Ctx) {
 	// not be taken on a snapshot of answer.flags from before Conn.mu was
 	// released (shared with C06-R8)
 	ruleStaleGuardedRead(ctx, "C07-R8s", rpcScope)
+	ruleReleaseFuncOfSameQuestion(ctx, "C07-R9")
 	r := ctx.Rep
+	r.Floor("C07-R9", 2)
 	r.Floor("C07-R1", 8)
 	r.Floor("C07-R2", 15)
 	r.Floor("C07-R3", 3)
